@@ -360,6 +360,10 @@ Record scfg := {
   sc_registry_blob : list N;                      (* NBT image of Configurations.Registries *)
   sc_status : Z -> option (list N) }.             (* listResp(clientProtocol): JSON or marshal error *)
 
+(* what AcceptConn writes as the reason of a login disconnect: chat.JsonMessage(loginErr.reason)
+   (true) or the chat.Message itself, i.e. NBT (false, the tree before ef3d9ec) *)
+Definition gate_json_reason : bool := true.
+
 Record srv := { s_ph : sphase; s_thr : Z; s_proto : Z; s_name : list N; s_uuid : list N;
                 s_seen : list (Z * Z * Z) }.
 Definition s_set (s : srv) (ph : sphase) : srv :=
